@@ -9,6 +9,8 @@ mod rng;
 
 mod c01;
 mod c02;
+mod c05;
+mod pk;
 mod c12;
 mod faults;
 
@@ -28,6 +30,7 @@ fn build(id: &str, ctx: &Ctx) -> Option<Property> {
     Some(match id {
         "C01" => c01::build(ctx),
         "C02" => c02::build(ctx),
+        "C05" => c05::build(ctx),
         "C12" => c12::build(ctx),
         _ => return None,
     })
